@@ -49,8 +49,10 @@ impl Bus {
 
     /// R6: the one expression that notifies the peripheral manager of a register write.
     /// `write_registers(&mut ModuleManager, u32, u8)` has no access path to the Bus (Rust typing).
+    /// The result type is copied from the real `ModuleManager::write_registers` signature on every run
+    /// (`/*@NOTIFY_RET@*/`); whatever it returns is unconstrained here.
     #[verifier::external_body]
-    pub fn notify_modules(&self, addr: u32, value: u8) {
+    pub fn notify_modules(&self, addr: u32, value: u8) /*@NOTIFY_RET@*/ {
         unimplemented!()
     }
 
